@@ -72,7 +72,7 @@ def run(ctx):
     r, st = T.run_family(ctx, f'TSMMerge.Snapshot_{tier}.cfg', tag='snapshot', timeout=3600)
     cov['exhaustive_cache_write_sequences'] = len(st)
     cases += decorate(st, 3, ctx.seed, 5, 1, base=3 * 10 ** 6)
-    n3 = 400 if tier == 'quick' else 6000
+    n3 = 400 if tier == 'quick' else 3000
     # file rolling: > 65535 blocks of one key force ErrMaxBlocksExceeded and a second output file (ppb = 1 only)
     rp = roll_picks(1 if tier == 'quick' else 4)
     rkeys = {json.dumps(p, sort_keys=True) for p in rp}
@@ -88,7 +88,7 @@ def run(ctx):
         c['conc'] = ['small']
     cases += roll
     if tier != 'quick':
-        st = picks_run(ctx, 'MCCompact4', [T.rand_files(ctx.rng, 4, 1, 4) for _ in range(3000)], 4, 4, 1)
+        st = picks_run(ctx, 'MCCompact4', [T.rand_files(ctx.rng, 4, 1, 4) for _ in range(1500)], 4, 4, 1)
         cov['sampled_4files_1key_4ts'] = len(st)
         cases += decorate(st, 4, ctx.seed, 5, 2, base=5 * 10 ** 6)
     binary = ctx.go_build('tsmmerge')
@@ -132,5 +132,5 @@ META = {
             'MaxTSMFileSize rolling is not exercised (2 GB), ErrMaxBlocksExceeded rolling is. Trusted: TLC, the driver\'s '
             'transcription of the WellFormed predicate (checkOutput, 50 lines) and its concretisation.',
     'technique': 'TLA+ spec (TSMMerge.tla, families compact/snapshot) + TLC input enumeration + replay of every state on the real Compactor',
-    'quick_s': 170, 'thorough_s': 1700,
+    'quick_s': 150, 'thorough_s': 1500,
 }
